@@ -1,6 +1,7 @@
 SPECIFICATION Spec
 CONSTANT Mode = "fixed"
 CONSTANT IntoMode = "faithful"
+CONSTANT EncMode = "faithful"
 CONSTANT Tier = "thorough"
 INVARIANT LayoutRoundTrip
 INVARIANT IndexInjective
